@@ -99,6 +99,10 @@ FAMILY = [
     ("measure_one", [("q", 2)], [("c", 1)], [("X", [], [("q", 1)]), ("Ry", [0.3], [("q", 0)])], [(("q", 1), ("c", 0))]),
     ("measure_registers", [("b", 1), ("a", 2)], [("d", 1), ("c", 2)], [("X", [], [("a", 0)]), ("CX", [], [("a", 0), ("b", 0)]), ("Ry", [0.3], [("a", 1)])],
      [(("a", 0), ("c", 1)), (("b", 0), ("d", 0))]),
+    ("measure_three_cregs", [("q", 4)], [("b", 2), ("a", 1), ("c", 1)], [("X", [], [("q", 0)]), ("X", [], [("q", 2)]), ("CX", [], [("q", 2), ("q", 3)]), ("X", [], [("q", 3)])],
+     [(("q", 0), ("a", 0)), (("q", 1), ("b", 0)), (("q", 2), ("b", 1)), (("q", 3), ("c", 0))]),
+    ("measure_four_cregs", [("q", 5)], [("z", 1), ("w", 2), ("x", 1), ("y", 1)], [("X", [], [("q", 1)]), ("X", [], [("q", 4)])],
+     [(("q", 0), ("w", 0)), (("q", 1), ("w", 1)), (("q", 2), ("x", 0)), (("q", 3), ("y", 0)), (("q", 4), ("z", 0))]),
     ("measure_params", [("q", 3)], [("c", 2)], [("X", [], [("q", 2)]), ("Ry", ["beta"], [("q", 0)]), ("Rz", ["alpha"], [("q", 0)]), ("CX", [], [("q", 2), ("q", 1)])],
      [(("q", 2), ("c", 0)), (("q", 1), ("c", 1))]),
     ("eleven", [("q", 11)], [], [("X", [], [("q", 10)]), ("Ry", [0.3], [("q", 2)]), ("CX", [], [("q", 10), ("q", 1)]), ("Rz", [0.6], [("q", 9)]), ("H", [], [("q", 9)])], []),
